@@ -22,7 +22,7 @@ import (
 
 type JournalEntry struct {
 	Seq    int
-	ReqID  int    // simnet request during which the call was made (0: none)
+	ReqID  int // simnet request during which the call was made (0: none)
 	Method string
 	Args   string
 	Err    string
@@ -79,7 +79,7 @@ type Client struct {
 	Dev             bool
 	Skew            time.Duration
 	UserinfoAssert  bool
-	AllowedScopes   []string // custom scopes this client may request
+	AllowedScopes   []string         // custom scopes this client may request
 	Key             *jose.JSONWebKey // public key for private_key_jwt / jwt profile (nil: none)
 	LoginBase       string
 }
@@ -115,26 +115,26 @@ func (c *Client) HasGrant(g oidc.GrantType) bool { return slices.Contains(c.Gran
 func (c *Client) Public() bool                   { return c.Auth == oidc.AuthMethodNone }
 
 type AuthReq struct {
-	ID            string
-	ClientID      string
-	Scopes        []string
-	RedirectURI   string
-	ResponseType  oidc.ResponseType
-	ResponseMode  oidc.ResponseMode
-	State         string
-	Nonce         string
-	Challenge     *oidc.CodeChallenge
-	Subject       string
-	AuthTime      time.Time
-	IsDone        bool
-	AMR           []string
-	ACR           string
-	HintSubject   string
-	Prompt        []string
-	MaxAge        *uint
-	SessionState  string
-	CreatedAt     time.Time
-	Code          string
+	ID           string
+	ClientID     string
+	Scopes       []string
+	RedirectURI  string
+	ResponseType oidc.ResponseType
+	ResponseMode oidc.ResponseMode
+	State        string
+	Nonce        string
+	Challenge    *oidc.CodeChallenge
+	Subject      string
+	AuthTime     time.Time
+	IsDone       bool
+	AMR          []string
+	ACR          string
+	HintSubject  string
+	Prompt       []string
+	MaxAge       *uint
+	SessionState string
+	CreatedAt    time.Time
+	Code         string
 }
 
 func (a *AuthReq) GetID() string                         { return a.ID }
@@ -191,11 +191,11 @@ type refreshReq struct {
 	current []string
 }
 
-func (r *refreshReq) GetAMR() []string        { return r.r.AMR }
-func (r *refreshReq) GetAudience() []string   { return r.r.Audience }
-func (r *refreshReq) GetAuthTime() time.Time  { return r.r.AuthTime }
-func (r *refreshReq) GetClientID() string     { return r.r.Client }
-func (r *refreshReq) GetSubject() string      { return r.r.Subject }
+func (r *refreshReq) GetAMR() []string            { return r.r.AMR }
+func (r *refreshReq) GetAudience() []string       { return r.r.Audience }
+func (r *refreshReq) GetAuthTime() time.Time      { return r.r.AuthTime }
+func (r *refreshReq) GetClientID() string         { return r.r.Client }
+func (r *refreshReq) GetSubject() string          { return r.r.Subject }
 func (r *refreshReq) SetCurrentScopes(s []string) { r.current = s }
 func (r *refreshReq) GetScopes() []string {
 	if r.current != nil {
@@ -240,11 +240,11 @@ func (p publicKey) Key() any                           { return p.k.Pub }
 
 // ExchangePolicy is the storage policy of the token-exchange grant.
 type ExchangePolicy struct {
-	DefaultType     oidc.TokenType // requested type when the request leaves it empty
-	Veto            bool           // refuse every exchange
-	ImpersonateAs   string         // non-empty: SetSubject to this user
-	DropScopes      []string       // scopes the policy removes
-	AllowedTypes    []oidc.TokenType
+	DefaultType   oidc.TokenType // requested type when the request leaves it empty
+	Veto          bool           // refuse every exchange
+	ImpersonateAs string         // non-empty: SetSubject to this user
+	DropScopes    []string       // scopes the policy removes
+	AllowedTypes  []oidc.TokenType
 }
 
 // Store is SimStore.
@@ -265,17 +265,17 @@ type Store struct {
 	AccessLifetime  time.Duration
 	RefreshLifetime time.Duration
 	Policy          ExchangePolicy
-	SessionStates   bool // auth requests expose a session_state
-	JWTProfileJWT   bool // JWTProfileTokenType answers JWT
+	SessionStates   bool           // auth requests expose a session_state
+	JWTProfileJWT   bool           // JWTProfileTokenType answers JWT
 	CustomClaims    map[string]any // private claims returned for every token (may collide with registered names)
 	DeletedAuthReqs map[string]*AuthReq
 	Terminated      []string // "user|client"
 
 	// fault injection: Inject is asked for every call (1-based index within the current
 	// request when CountPerReq is set, else global) and returns a fault kind or "".
-	Inject func(callNo int, method string, reqID int) string
-	calls  int
-	reqCalls map[int]int
+	Inject      func(callNo int, method string, reqID int) string
+	calls       int
+	reqCalls    map[int]int
 	FaultsFired map[string]int
 	// OnCall is invoked before every call (scheduler yield point); may be nil.
 	OnCall func(ctx context.Context, method string)
@@ -380,7 +380,7 @@ func (s *Store) CallsIn(req int) int {
 type notFound struct{ what string }
 
 func (e notFound) Error() string { return e.what + " not found" }
-func (e notFound) IsNotFound()    {}
+func (e notFound) IsNotFound()   {}
 
 // ---- AuthStorage ----
 
